@@ -42,6 +42,14 @@ CC = 'contracts/copyctors.c'
 FR = 'contracts/frame.c'
 
 UNITS = [
+    U('Frame_add_Frame_points', FR, 'h_P_Frame_add_Frame', ['Frame__add__Frame/contract_P_Frame__add__Frame'],
+      ['C01', 'C06', 'C08', 'C10', 'C13', 'C18'],
+      replace=['Frame__add__Points/contract_Frame__add__Points', 'Frame__add__Analogs/contract_frameonly_Frame__add__Analogs'],
+      unwind=5, timeout=300),
+    U('Frame_add_Frame_analogs', FR, 'h_A_Frame_add_Frame', ['Frame__add__Frame/contract_A_Frame__add__Frame'],
+      ['C01', 'C06', 'C08', 'C10', 'C13', 'C18'],
+      replace=['Frame__add__Points/contract_frameonly_Frame__add__Points', 'Frame__add__Analogs/contract_Frame__add__Analogs'],
+      unwind=5, timeout=300),
     U('Frame_ctor', FR, 'h_Frame_ctor', ['Frame__ctor/contract_Frame__ctor'],
       ['C06', 'C08', 'C10', 'C13', 'C18'], unwind=5, timeout=120),
     U('Frame_add_Points', FR, 'h_Frame_add_Points', ['Frame__add__Points/contract_Frame__add__Points'],
